@@ -151,6 +151,23 @@ async def s_graceful_busy(app, start, pids, created):
     return {'pids': seen + pids(), 'pools_at_begin': n, 'fails': fails}
 
 
+async def s_graceful_queued(app, start, pids, created):
+    """more diffs in flight than the pool runs at once (DIFFER_PARALLELISM=2: two running, the rest submitted and waiting): a graceful
+    shutdown lets every one of them finish with its normal result - none is dropped, cancelled or answered with an error"""
+    tasks = [start(0.4) for _ in range(9)]
+    await asyncio.sleep(0.25)
+    seen = pids()
+    n = len(created)
+    sd = asyncio.ensure_future(app.shutdown())
+    results = [await result_of(t, 20) for t in tasks]
+    await sd
+    fails = []
+    bad = [r for r in results if r[0] != 'ok']
+    if bad:
+        fails.append('%d of %d diffs that were in flight when a graceful shutdown began did not finish normally: %s' % (len(bad), len(results), bad[:3]))
+    return {'pids': seen + pids(), 'pools_at_begin': n, 'fails': fails}
+
+
 async def s_immediate_busy(app, start, pids, created):
     t = start(5)
     await asyncio.sleep(0.3)
@@ -305,7 +322,7 @@ async def http_scenario(name, immediate, stage='diffing'):
 
 
 def main():
-    scenarios = [('idle, graceful', s_idle), ('busy, graceful', s_graceful_busy), ('busy, immediate', s_immediate_busy),
+    scenarios = [('idle, graceful', s_idle), ('busy, graceful', s_graceful_busy), ('queued, graceful', s_graceful_queued), ('busy, immediate', s_immediate_busy),
                  ('busy, graceful then immediate', s_escalate), ('before any pool exists', s_before_pool),
                  ('worker killed, then graceful', s_broken_then_shutdown)]
     ok = True
